@@ -409,6 +409,10 @@ func (l *ExpandedLexer) readIdentifier() Token {
 	case "assert":
 		// assert keyword - uses dedicated ASSERT token (defined in token.go:78)
 		tok.Type = ASSERT
+	case "break":
+		tok.Type = BREAK
+	case "continue":
+		tok.Type = CONTINUE
 	default:
 		tok.Type = IDENT
 	}
